@@ -242,7 +242,14 @@ def newDriver(irc, moduleName=None):
 def parseMsg(s):
     s = s.strip()
     if s:
-        msg = ircmsgs.IrcMsg(s)
+        try:
+            msg = ircmsgs.IrcMsg(s)
+        except ircmsgs.MalformedIrcMsg:
+            # Skip a line that is not an IRC message instead of letting the
+            # exception escape the driver's run() (which would remove the
+            # driver from the loop for good).
+            log.warning('Ignoring malformed message from server: %r', s)
+            return None
         return msg
     else:
         return None
